@@ -59,11 +59,14 @@ fn judge_case(case: &Case, rc: &mut RCase, class: &str) -> Result<bool, Failure>
                 // which field could not hold its quantity (from the denotation, not from the diff:
                 // a dropped quantity may also show up as a missing optional output)
                 let first = &x.out_of_range[0];
+                // the recorded defect is about amounts below zero; one above the field's range is a case of its own
+                let above = !first.starts_with("output quantity -");
                 let field = if first.starts_with("output quantity") {
-                    if first.contains("Lovelace") {
-                        "outputs[].lovelace"
-                    } else {
-                        "outputs[].assets"
+                    match (first.contains("Lovelace"), above) {
+                        (true, false) => "outputs[].lovelace",
+                        (true, true) => "outputs[].lovelace_above_u64",
+                        (false, false) => "outputs[].assets",
+                        (false, true) => "outputs[].assets_above_u64",
                     }
                 } else if first.contains("mint") {
                     "mint"
